@@ -310,3 +310,57 @@ def clock_ambiguous(case, impl_out):
             if any(a <= e <= b for e in instants):
                 return True
     return False
+
+
+def selfcons_phase(ck, lr, fcases, fout, OBS, rng, limit, tag="selfcons"):
+    """After a storage failure the live location is still one location: what it dispatches and finds is what a healthy location
+    holding the same documents (the live one's own memory, read back by `snapshot`) dispatches and finds. fcases: histories with
+    `failAt`; fout: their outputs on the real code (to locate the operation during which the failing write happens)."""
+    scases, sinfo = [], []
+    for c, o in zip(fcases, fout):
+        outs = o.get("outs") or []
+        prev, kf_ = 0, None
+        for k, r in enumerate(outs):
+            w = r.get("writes", prev)
+            if prev < c["failAt"] <= w:
+                kf_ = k; break
+            prev = w
+        if kf_ is None or c["ops"][kf_]["op"] not in ("addFact", "addRule", "remFact", "remRule", "enableRule", "setParents"):
+            continue
+        sc_ = dict(copy.deepcopy(c))
+        obs_ = OBS(c) if callable(OBS) else OBS
+        sc_["ops"] = sc_["ops"][: kf_ + 1] + [{"op": "snapshot", "loc": "a"}] + [dict(copy.deepcopy(x), loc="a") for x in obs_]
+        sc_["_obs"] = obs_
+        scases.append(sc_); sinfo.append(kf_)
+    if not ck.thorough and len(scases) > 160:
+        pick = sorted(rng.sample(range(len(scases)), 160))
+        scases, sinfo = [scases[i] for i in pick], [sinfo[i] for i in pick]
+    sout = run_cases(lr.drv, scases)
+    mcs, keep = [], []
+    for c, o, kf_ in zip(scases, sout, sinfo):
+        outs = o.get("outs") or []
+        if len(outs) != len(c["ops"]) or not isinstance(outs[kf_ + 1].get("ok"), dict):
+            continue
+        now = outs[kf_ + 1].get("now", 0)
+        docs = outs[kf_ + 1]["ok"].get("facts") or {}
+        mops = [{"op": "addFact", "loc": "a", "id": i, "fact": d, "now": now} for i, d in sorted(docs.items())]
+        mops += [dict(copy.deepcopy(x), loc="a", now=outs[kf_ + 2 + j].get("now", now)) for j, x in enumerate(c["_obs"])]
+        mcs.append({"kind": "loc", "state": c["state"], "locs": c["locs"], "ops": mops}); keep.append((c, outs, kf_, len(docs)))
+    mouts = run_cases(lr.mdl, mcs)
+    for (c, outs, kf_, nd), m in zip(keep, mouts):
+        ck.count({tag: c["failAt"], "s": c["state"], "ops": c["ops"]})
+        mo = (m or {}).get("outs") or []
+        if len(mo) != nd + len(c["_obs"]):
+            continue
+        if any(isinstance(x, dict) and x.get("err") for x in mo[:nd]):
+            lr.stats["selfcons_not_rebuildable"] += 1      # a document the model location refuses as given (already expired ...)
+            continue
+        lr.stats["selfcons_cases"] += 1
+        for j, x in enumerate(c["_obs"]):
+            # (generated ids are the same strings on both sides; results are sets: no numbering by first appearance here)
+            a, b = canon_out(x, outs[kf_ + 2 + j]), canon_out(x, mo[nd + j])
+            if a != b:
+                ck.violation("after storage write %d failed inside %s the live location answers %s with %s, a location holding the same documents answers %s (%s state)" % (
+                    c["failAt"], c["ops"][kf_]["op"], canon(x)[:100], a[1][:220], b[1][:220], c["state"]),
+                    {"case": {kk: (v if kk != "ops" else v[: kf_ + 2] + [x]) for kk, v in c.items()}, "live": outs[kf_ + 2 + j], "rebuilt": mo[nd + j], "documents": outs[kf_ + 1]["ok"].get("facts")}, tag=tag)
+                break
